@@ -21,59 +21,75 @@ Proof. unfold o_fast, fld, obs_link. cbn. destruct (fast (cg c)); reflexivity. Q
 Lemma first_clause_all l : Forall (fun p : N * bool => snd p = true) l -> first_clause l = 0%N.
 Proof. induction 1 as [|[n b] l H _ IH]; cbn in *; [reflexivity|]. rewrite H. exact IH. Qed.
 
+Lemma i32_ovf_false x : -2000000000 <= x <= 2000000000 -> i32_ovf x = false.
+Proof.
+  intros H. unfold i32_ovf, i32_min, i32_max, two31.
+  apply orb_false_intro; [apply Z.ltb_ge|apply Z.ltb_ge]; lia.
+Qed.
+
+Ltac kconst :=
+  change WINDOW_INCR with 30 in *; change WINDOW_CEIL with 60000 in *; change WINDOW_FLOOR with 1000 in *;
+  change WINDOW_DECR with 100 in *; change WINDOW_DEFAULT with 20000 in *;
+  change FAST_RECOVERY_ENTER_WINDOW with 2000 in *; change FAST_RECOVERY_DISABLE_WINDOW with 12000 in *.
+
 (** effect of the primitive congestion functions on (window, fast flag, overflow) *)
-Lemma cong_nak_eff c w now g w' o : cong_nak c w now = (g, w', o) -> 1000 <= w <= 60000 ->
-  w' = Z.max (w - 100) 1000 /\ o = false /\
-  fast g = (if (w' <=? 2000) && negb (fast c) then true else fast c).
+Lemma cong_nak_eff c w now : 1000 <= w <= 60000 ->
+  snd (fst (cong_nak c w now)) = Z.max (w - 100) 1000 /\ snd (cong_nak c w now) = false /\
+  fast (fst (fst (cong_nak c w now))) =
+    (if (Z.max (w - 100) 1000 <=? 2000) && negb (fast c) then true else fast c).
 Proof.
-  unfold cong_nak. intros H Hw.
+  intros Hw. unfold cong_nak.
   destruct ((0 <? last_nak c) && (ssub now (last_nak c) <? NAK_BURST_WINDOW_MS));
-  [destruct (burst c =? 0)|]; inversion H; subst; clear H; cbn [fast];
-  unfold i32_ovf, WINDOW_DECR, WINDOW_FLOOR, WINDOW_MIN, WINDOW_MULT, FAST_RECOVERY_ENTER_WINDOW, i32_min, i32_max, two31 in *;
-  repeat split; try reflexivity; lia.
+  [destruct (burst c =? 0)|]; cbn [fst snd fast]; kconst;
+  (rewrite i32_ovf_false by lia); repeat split; reflexivity.
 Qed.
 
-Lemma ack_classic_eff w inf w' o : ack_classic w inf = (w', o) -> 1000 <= w <= 60000 ->
-  w <= w' <= 60000 /\ o = false.
+Lemma ack_classic_eff w inf : 1000 <= w <= 60000 ->
+  w <= fst (ack_classic w inf) <= 60000 /\ snd (ack_classic w inf) = false.
 Proof.
-  unfold ack_classic. intros H Hw.
-  unfold WINDOW_INCR, WINDOW_CEIL, WINDOW_MAX, WINDOW_MULT, i32_ovf, i32_min, i32_max, two31 in *.
-  destruct (w <? _); inversion H; subst; lia.
+  intros Hw. unfold ack_classic. destruct (w <? _); cbn [fst snd]; kconst; [|lia].
+  rewrite i32_ovf_false by lia. lia.
 Qed.
 
-Lemma ack_enhanced_eff c w inf g w' o : ack_enhanced c w inf = (g, w', o) -> 1000 <= w <= 60000 ->
-  w <= w' <= 60000 /\ o = false /\ fast g = (if fast c && (12000 <=? w') then false else fast c).
+Lemma ack_enhanced_eff c w inf : 1000 <= w <= 60000 ->
+  let r := ack_enhanced c w inf in
+  w <= snd (fst r) <= 60000 /\ snd r = false /\
+  fast (fst (fst r)) = (if fast c && (12000 <=? snd (fst r)) then false else fast c).
 Proof.
-  unfold ack_enhanced. intros H Hw. destruct (ack_classic w inf) as [w1 o1] eqn:E.
-  apply ack_classic_eff in E; [|exact Hw]. inversion H; subst. cbn [fast].
-  unfold FAST_RECOVERY_DISABLE_WINDOW. repeat split; try lia. destruct E as [_ ->]. reflexivity.
+  intros Hw. cbn zeta. unfold ack_enhanced.
+  pose proof (ack_classic_eff w inf Hw) as [H1 H2].
+  destruct (ack_classic w inf) as [w1 o1]. cbn [fst snd fast] in *. kconst. auto.
 Qed.
 
-Lemma recovery_eff c w conn now v g w' o : recovery c w conn now v = (g, w', o) -> 1000 <= w <= 60000 ->
-  w <= w' <= 60000 /\ o = false /\
-  (fast g = fast c \/ (fast c = true /\ fast g = false /\ 12000 <= w')).
+Definition rec_base (c : cong) (tsl : Z) : Z :=
+  let bonus := if fast c then 2 else 1 in
+  if 10000 <? tsl then WINDOW_INCR * 2 * bonus
+  else if 7000 <? tsl then WINDOW_INCR * bonus
+  else if 5000 <? tsl then Z.quot (WINDOW_INCR * bonus) 2
+  else Z.quot (WINDOW_INCR * bonus) 4.
+
+Lemma rec_base_range c tsl v : 0 <= (if v : bool then Z.quot (rec_base c tsl) 2 else rec_base c tsl) <= 120.
 Proof.
-  unfold recovery. intros H Hw.
-  unfold WINDOW_INCR, WINDOW_CEIL, WINDOW_MAX, WINDOW_MULT, FAST_RECOVERY_DISABLE_WINDOW,
-         i32_ovf, i32_min, i32_max, two31 in *.
-  destruct (negb conn || (60 * 1000 <=? w)); [inversion H; subst; repeat split; try lia; auto|].
-  destruct ((_ <? _) && (_ <? _)); [|inversion H; subst; cbn [fast]; repeat split; try lia; auto].
-  inversion H; subst; clear H. cbn [fast].
-  assert (Hincr : 0 <= (if v then Z.quot
-     (if 10000 <? (if negb (0 <? last_nak c) then u64_max else ssub now (last_nak c)) then 30 * 2 * (if fast c then 2 else 1)
-      else if 7000 <? (if negb (0 <? last_nak c) then u64_max else ssub now (last_nak c)) then 30 * (if fast c then 2 else 1)
-      else if 5000 <? (if negb (0 <? last_nak c) then u64_max else ssub now (last_nak c)) then Z.quot (30 * (if fast c then 2 else 1)) 2
-      else Z.quot (30 * (if fast c then 2 else 1)) 4) 2
-     else
-     (if 10000 <? (if negb (0 <? last_nak c) then u64_max else ssub now (last_nak c)) then 30 * 2 * (if fast c then 2 else 1)
-      else if 7000 <? (if negb (0 <? last_nak c) then u64_max else ssub now (last_nak c)) then 30 * (if fast c then 2 else 1)
-      else if 5000 <? (if negb (0 <? last_nak c) then u64_max else ssub now (last_nak c)) then Z.quot (30 * (if fast c then 2 else 1)) 2
-      else Z.quot (30 * (if fast c then 2 else 1)) 4)) <= 120).
-  { destruct v, (fast c), (10000 <? _), (7000 <? _), (5000 <? _); cbn; lia. }
-  set (incr := if v then _ else _) in *.
+  unfold rec_base. kconst.
+  destruct v, (fast c), (10000 <? tsl), (7000 <? tsl), (5000 <? tsl); vm_compute; split; intro; discriminate.
+Qed.
+
+Lemma recovery_eff c w conn now v : 1000 <= w <= 60000 ->
+  let r := recovery c w conn now v in
+  w <= snd (fst r) <= 60000 /\ snd r = false /\
+  (fast (fst (fst r)) = fast c \/ (fast c = true /\ fast (fst (fst r)) = false /\ 12000 <= snd (fst r))).
+Proof.
+  intros Hw. cbn zeta. unfold recovery.
+  destruct (negb conn || (WINDOW_CEIL <=? w)) eqn:E0; [cbn [fst snd]; repeat split; try lia; auto|].
+  set (tsl := if negb (0 <? last_nak c) then u64_max else ssub now (last_nak c)).
+  destruct ((_ <? tsl) && (_ <? _)); [|cbn [fst snd fast]; repeat split; try lia; auto].
+  cbn [fst snd fast].
+  pose proof (rec_base_range c tsl v) as Hr. unfold rec_base in Hr. cbn zeta in Hr.
+  set (incr := if v then _ else _) in *. kconst.
+  rewrite i32_ovf_false by lia.
   repeat split; try lia.
   destruct (fast c) eqn:Ef; cbn [andb]; [|left; reflexivity].
-  destruct (12000 <=? Z.min (w + incr) (60 * 1000)) eqn:E12; [right; repeat split; lia|left; reflexivity].
+  destruct (12000 <=? Z.min (w + incr) 60000) eqn:E12; [right; repeat split; lia|left; reflexivity].
 Qed.
 
 Ltac finish_clauses :=
@@ -85,77 +101,80 @@ Lemma global_eff c : Inv c -> Inv (handle_srtla_ack_global c) /\
 Proof.
   intros [Hw Ho]. unfold handle_srtla_ack_global, Inv.
   destruct (connected c && _); cbn [window ovf cg]; [|auto with zarith].
-  unfold WINDOW_CEIL, WINDOW_MAX, WINDOW_MULT, i32_ovf, i32_min, i32_max, two31. rewrite Ho.
-  repeat split; try lia. cbn. lia.
+  kconst. rewrite i32_ovf_false by lia. rewrite Ho. repeat split; try lia; reflexivity.
 Qed.
 
-Lemma specific_eff c seq cl now : Inv c ->
-  let c' := fst (handle_srtla_ack_specific c seq cl now) in
+Definition up_rel (c c' : link) : Prop :=
   Inv c' /\ window c <= window c' /\
   (fast (cg c') = fast (cg c) \/ (fast (cg c) = true /\ fast (cg c') = false /\ 12000 <= window c')).
+Definition down_rel (c c' : link) : Prop :=
+  Inv c' /\ window c' <= window c /\
+  (fast (cg c') = fast (cg c) \/ (fast (cg c) = false /\ fast (cg c') = true /\ window c' <= 2000)).
+
+Lemma ack_any_eff (c : link) (cl : bool) (inf : Z) : Inv c ->
+  let r := if cl then let '(w, o) := ack_classic (window c) inf in (cg c, w, o)
+           else ack_enhanced (cg c) (window c) inf in
+  1000 <= snd (fst r) <= 60000 /\ window c <= snd (fst r) /\ snd r = false /\
+  (fast (fst (fst r)) = fast (cg c) \/
+   (fast (cg c) = true /\ fast (fst (fst r)) = false /\ 12000 <= snd (fst r))).
 Proof.
-  intros [Hw Ho]. unfold handle_srtla_ack_specific, Inv.
+  intros [Hw Ho]. cbn zeta. destruct cl.
+  - pose proof (ack_classic_eff (window c) inf Hw) as [E Eo].
+    destruct (ack_classic _ _) as [w o]. cbn [fst snd] in *. repeat split; try lia; auto.
+  - pose proof (ack_enhanced_eff (cg c) (window c) inf Hw) as (E & Eo & Ef). cbn zeta in *.
+    destruct (ack_enhanced _ _ _) as [[g w] o]. cbn [fst snd] in *. repeat split; try lia; auto.
+    rewrite Ef. destruct (fast (cg c)); cbn [andb]; [|left; reflexivity].
+    destruct (12000 <=? w) eqn:E12; [right; repeat split; lia|left; reflexivity].
+Qed.
+
+Lemma specific_eff c seq cl now : Inv c -> up_rel c (fst (handle_srtla_ack_specific c seq cl now)).
+Proof.
+  intros HI. pose proof HI as [Hw Ho]. unfold handle_srtla_ack_specific, up_rel, Inv.
   destruct (log_mem seq (log c)); cbn zeta; [|cbn [fst]; auto with zarith].
-  destruct cl.
-  - destruct (ack_classic _ _) as [w o] eqn:E. cbn [fst window ovf cg].
-    apply ack_classic_eff in E; [|exact Hw]. destruct E as [E ->]. rewrite Ho. cbn. auto with zarith.
-  - destruct (ack_enhanced _ _ _) as [[g w] o] eqn:E. cbn [fst window ovf cg].
-    apply ack_enhanced_eff in E; [|exact Hw]. destruct E as (E & -> & Ef). rewrite Ho. cbn [orb].
-    repeat split; try lia. rewrite Ef.
-    destruct (fast (cg c)); cbn [andb]; [|left; reflexivity].
-    destruct (12000 <=? w) eqn:E12; [right; repeat split; lia|left; reflexivity].
+  pose proof (ack_any_eff c cl (blen (log_remove seq (log c))) HI) as (H1 & H2 & H3 & H4). cbn zeta in *.
+  destruct (if cl then _ else _) as [[g w] o]. cbn [fst snd window ovf cg] in *. subst o. rewrite Ho.
+  cbn [orb]. repeat split; try lia; auto.
 Qed.
 
-Lemma nak_eff c seq now : Inv c ->
-  let c' := fst (handle_nak c seq now) in
-  Inv c' /\ window c' <= window c /\
-  (fast (cg c') = fast (cg c) \/ (fast (cg c) = false /\ fast (cg c') = true /\ window c' <= 2000)).
+Lemma cc_ack_eff c cl inf : Inv c -> up_rel c (cc_ack c cl inf).
 Proof.
-  intros [Hw Ho]. unfold handle_nak, Inv. destruct (log_mem seq (log c)); cbn zeta; [|cbn [fst]; auto with zarith].
-  destruct (cong_nak _ _ _) as [[g w] o] eqn:E. cbn [fst window ovf cg].
-  apply cong_nak_eff in E; [|exact Hw]. destruct E as (-> & -> & Ef). rewrite Ho. cbn [orb].
-  repeat split; try lia. rewrite Ef.
-  destruct (Z.max (window c - 100) 1000 <=? 2000) eqn:E2; cbn [andb]; [|left; reflexivity].
-  destruct (fast (cg c)); cbn [negb]; [left; reflexivity|right; repeat split; lia].
+  intros HI. pose proof HI as [Hw Ho]. unfold cc_ack, up_rel, Inv.
+  pose proof (ack_any_eff c cl inf HI) as (H1 & H2 & H3 & H4). cbn zeta in *.
+  destruct (if cl then _ else _) as [[g w] o]. cbn [fst snd window ovf cg] in *. subst o. rewrite Ho.
+  cbn [orb]. repeat split; try lia; auto.
 Qed.
 
-Lemma cc_nak_eff c now : Inv c ->
-  let c' := cc_nak c now in
-  Inv c' /\ window c' <= window c /\
-  (fast (cg c') = fast (cg c) \/ (fast (cg c) = false /\ fast (cg c') = true /\ window c' <= 2000)).
+Lemma nak_fast_cases w (f : bool) :
+  let f' := if (Z.max (w - 100) 1000 <=? 2000) && negb f then true else f in
+  f' = f \/ (f = false /\ f' = true /\ Z.max (w - 100) 1000 <= 2000).
 Proof.
-  intros [Hw Ho]. unfold cc_nak, Inv.
-  destruct (cong_nak _ _ _) as [[g w] o] eqn:E. cbn [fst window ovf cg].
-  apply cong_nak_eff in E; [|exact Hw]. destruct E as (-> & -> & Ef). rewrite Ho. cbn [orb].
-  repeat split; try lia. rewrite Ef.
-  destruct (Z.max (window c - 100) 1000 <=? 2000) eqn:E2; cbn [andb]; [|left; reflexivity].
-  destruct (fast (cg c)); cbn [negb]; [left; reflexivity|right; repeat split; lia].
+  cbn zeta. destruct (Z.max (w - 100) 1000 <=? 2000) eqn:E; cbn [andb]; [|left; reflexivity].
+  destruct f; cbn [negb]; [left; reflexivity|right; repeat split; lia].
 Qed.
 
-Lemma cc_ack_eff c cl inf : Inv c ->
-  let c' := cc_ack c cl inf in
-  Inv c' /\ window c <= window c' /\
-  (fast (cg c') = fast (cg c) \/ (fast (cg c) = true /\ fast (cg c') = false /\ 12000 <= window c')).
+Lemma nak_eff c seq now : Inv c -> down_rel c (fst (handle_nak c seq now)).
 Proof.
-  intros [Hw Ho]. unfold cc_ack, Inv. destruct cl.
-  - destruct (ack_classic _ _) as [w o] eqn:E. cbn [fst window ovf cg].
-    apply ack_classic_eff in E; [|exact Hw]. destruct E as [E ->]. rewrite Ho. cbn. auto with zarith.
-  - destruct (ack_enhanced _ _ _) as [[g w] o] eqn:E. cbn [fst window ovf cg].
-    apply ack_enhanced_eff in E; [|exact Hw]. destruct E as (E & -> & Ef). rewrite Ho. cbn [orb].
-    repeat split; try lia. rewrite Ef.
-    destruct (fast (cg c)); cbn [andb]; [|left; reflexivity].
-    destruct (12000 <=? w) eqn:E12; [right; repeat split; lia|left; reflexivity].
+  intros HI. pose proof HI as [Hw Ho]. unfold handle_nak, down_rel, Inv.
+  destruct (log_mem seq (log c)); cbn zeta; [|cbn [fst]; auto with zarith].
+  pose proof (cong_nak_eff (cg c) (window c) now Hw) as (H1 & H2 & H3).
+  destruct (cong_nak _ _ _) as [[g w] o]. cbn [fst snd window ovf cg] in *. subst w o. rewrite Ho, H3.
+  cbn [orb]. repeat split; try lia. apply nak_fast_cases.
 Qed.
 
-Lemma recovery_link_eff c now v : Inv c ->
-  let c' := perform_window_recovery c now v in
-  Inv c' /\ window c <= window c' /\
-  (fast (cg c') = fast (cg c) \/ (fast (cg c) = true /\ fast (cg c') = false /\ 12000 <= window c')).
+Lemma cc_nak_eff c now : Inv c -> down_rel c (cc_nak c now).
 Proof.
-  intros [Hw Ho]. unfold perform_window_recovery, Inv.
-  destruct (recovery _ _ _ _ _) as [[g w] o] eqn:E. cbn [window ovf cg].
-  apply recovery_eff in E; [|exact Hw]. destruct E as (E & -> & Ef). rewrite Ho. cbn [orb].
-  repeat split; try lia. exact Ef.
+  intros HI. pose proof HI as [Hw Ho]. unfold cc_nak, down_rel, Inv.
+  pose proof (cong_nak_eff (cg c) (window c) now Hw) as (H1 & H2 & H3).
+  destruct (cong_nak _ _ _) as [[g w] o]. cbn [fst snd window ovf cg] in *. subst w o. rewrite Ho, H3.
+  cbn [orb]. repeat split; try lia. apply nak_fast_cases.
+Qed.
+
+Lemma recovery_link_eff c now v : Inv c -> up_rel c (perform_window_recovery c now v).
+Proof.
+  intros HI. pose proof HI as [Hw Ho]. unfold perform_window_recovery, up_rel, Inv.
+  pose proof (recovery_eff (cg c) (window c) (connected c) now v Hw) as (H1 & H2 & H3). cbn zeta in *.
+  destruct (recovery _ _ _ _ _) as [[g w] o]. cbn [fst snd window ovf cg] in *. subst o. rewrite Ho.
+  cbn [orb]. repeat split; try lia; auto.
 Qed.
 
 (** the C06 clauses for one link across one op, as a Prop over (window, fast) before/after *)
@@ -231,7 +250,7 @@ Proof.
     + apply Hsame. cbn. discriminate.
     + destruct (global_eff c HI) as (HI' & Hle & Hf). split; [exact HI'|].
       apply up_ok; auto.
-    + destruct (specific_eff c seq classic now HI) as (HI1 & Hle1 & Hf1). cbn zeta in *.
+    + destruct (specific_eff c seq classic now HI) as (HI1 & Hle1 & Hf1).
       destruct (global_eff _ HI1) as (HI2 & Hle2 & Hf2). split; [exact HI2|].
       apply up_ok; auto; [lia|]. rewrite Hf2.
       destruct Hf1 as [->|(E1 & E2 & E3)]; [left; reflexivity|right; repeat split; auto; lia].
@@ -251,45 +270,69 @@ Proof.
     + destruct (global_eff c HI) as (HI' & Hle & Hf). split; [exact HI'|]. apply up_ok; auto.
     + apply Hsame. cbn. discriminate.
   - (* OMarkRecovery *) eapply at_idx_cases; [exact Ht| |]; intros Hi ->.
-    + split; [unfold Inv, mark_for_recovery, reset_core; cbn; split; [cbv; split; discriminate|exact Ho]|].
-      open_clauses; cbn [window cg fast mark_for_recovery reset_core]; subst i0; rewrite ?Nat.eqb_refl.
-      * cbv. reflexivity.
-      * reflexivity.
-      * reflexivity.
-      * reflexivity.
-      * destruct (fast (cg c)); reflexivity.
-      * destruct (fast (cg c)); reflexivity.
+    + subst. split; [unfold Inv, mark_for_recovery, reset_core; cbn [window ovf]; kconst; split; [lia|exact Ho]|].
+      open_clauses; cbn [window cg fast mark_for_recovery reset_core is_teardown_of is_nak_op is_ack_or_recovery_op is_flag_reset_of];
+      kconst; rewrite ?Nat.eqb_refl; try reflexivity; destruct (fast (cg c)); reflexivity.
     + apply Hsame. cbn. intros E. apply Nat.eqb_eq in E. congruence.
   - (* OResetReconnect *) eapply at_idx_cases; [exact Ht| |]; intros Hi ->.
-    + split; [unfold Inv, reset_for_reconnect, reset_core; cbn; split; [cbv; split; discriminate|exact Ho]|].
-      open_clauses; cbn [window cg fast reset_for_reconnect reset_core cong0]; subst i0; rewrite ?Nat.eqb_refl.
-      * cbv. reflexivity.
-      * reflexivity.
-      * reflexivity.
-      * reflexivity.
-      * reflexivity.
-      * destruct (fast (cg c)); cbn; rewrite ?orb_true_r; reflexivity.
+    + subst. split; [unfold Inv, reset_for_reconnect, reset_core; cbn [window ovf]; kconst; split; [lia|exact Ho]|].
+      open_clauses; cbn [window cg fast reset_for_reconnect reset_core cong0 is_teardown_of is_nak_op is_ack_or_recovery_op is_flag_reset_of];
+      kconst; rewrite ?Nat.eqb_refl; try reflexivity; destruct (fast (cg c)); cbn; rewrite ?orb_true_r; reflexivity.
     + apply Hsame. cbn. intros E. apply Nat.eqb_eq in E. congruence.
   - (* OReg3 *) eapply at_idx_cases; [exact Ht| |]; intros Hi ->.
-    + split; [exact HI|].
-      open_clauses; cbn [window cg fast reg3_clear cong0]; subst i0; rewrite ?Nat.eqb_refl.
-      * lia.
-      * reflexivity.
-      * reflexivity.
-      * reflexivity.
-      * reflexivity.
-      * destruct (fast (cg c)); cbn; rewrite ?orb_true_r; reflexivity.
+    + subst. split; [exact HI|].
+      open_clauses; cbn [window cg fast reg3_clear cong0 is_teardown_of is_nak_op is_ack_or_recovery_op is_flag_reset_of];
+      rewrite ?Nat.eqb_refl; try reflexivity; try lia; destruct (fast (cg c)); cbn; rewrite ?orb_true_r; reflexivity.
     + apply Hsame. cbn. discriminate.
   - (* OSetConn *) eapply at_idx_cases; [exact Ht| |]; intros Hi ->.
     + split; [exact HI|]. apply same_ok; auto. cbn. discriminate.
     + apply Hsame. cbn. discriminate.
   - (* OSetWindow *) eapply at_idx_cases; [exact Ht| |]; intros Hi ->.
     + cbn in Hwf. split; [split; [exact Hwf|exact Ho]|].
-      open_clauses; cbn [window cg fast set_window].
-      * lia.
-      * reflexivity.
-      * reflexivity.
-      * reflexivity.
-      * destruct (fast (cg c)); reflexivity.
-      * destruct (fast (cg c)); cbn. 
-Abort.
+      open_clauses; cbn [window cg fast set_window is_teardown_of is_nak_op is_ack_or_recovery_op is_flag_reset_of];
+      try reflexivity; try lia; destruct (fast (cg c)); reflexivity.
+    + apply Hsame. cbn. discriminate.
+  - (* ORemoveConn *) subst c'. apply Hsame. cbn. discriminate.
+Qed.
+
+(** ---------- lifting to states and traces ---------- *)
+Definition SInv (s : state) : Prop := Forall Inv (links s).
+
+Lemma step_inv_and_clauses s o : wf_op o -> SInv s ->
+  SInv (step s o) /\ c06_links o 0 (obs_state s) (obs_state (step s o)) = 0%N.
+Proof.
+  intros Hwf HI. pose proof (step_ltrans s o) as HT. unfold SInv, obs_state in *.
+  revert HI HT. generalize (links (step s o)). generalize (links s). generalize 0%nat.
+  intros j l l' HI HT. induction HT as [j|j x y l l' Hxy HT IH].
+  - split; [constructor|reflexivity].
+  - inversion HI as [|? ? Hx Hl]; subst.
+    destruct (c06_link_step o j x y Hwf Hxy Hx) as [Hy Hc].
+    destruct (IH Hl) as [Hl' Hcs]. split; [constructor; assumption|].
+    cbn [map c06_links]. unfold clauses_ok in Hc. rewrite Hc. cbn. exact Hcs.
+Qed.
+
+Lemma init_inv ids : SInv (init ids).
+Proof.
+  unfold SInv, init. cbn. induction ids; cbn; constructor; auto.
+  unfold Inv, link0. cbn [window ovf]. kconst. split; [lia|reflexivity].
+Qed.
+
+Theorem reachable_inv ids ops : Forall wf_op ops -> SInv (run_from (init ids) ops).
+Proof.
+  intros H. unfold run_from. generalize (init_inv ids). generalize (init ids).
+  induction H as [|o ops Ho Hops IH]; intros s Hs; cbn; [exact Hs|].
+  apply IH. apply (step_inv_and_clauses s o Ho Hs).
+Qed.
+
+Theorem monitor_holds ids ops : Forall wf_op ops -> check_with mon_C06 (model_case ids ops) = 0%N.
+Proof.
+  intros Hwf. apply (check_with_model mon_C06 (fun _ s => SInv s)).
+  - cbn. unfold init, obs_state. cbn. rewrite map_map. 
+    assert (H : forallb (fun l : lobs => o_window l =? 20000) (map (fun x => obs_link (link0 x)) ids) = true).
+    { induction ids; cbn; [reflexivity|]. exact IHids. }
+    rewrite H. reflexivity.
+  - apply init_inv.
+  - intros m s o HJ Hin. cbn [mon_C06 m_step fst snd].
+    assert (Ho : wf_op o) by (rewrite Forall_forall in Hwf; auto).
+    destruct (step_inv_and_clauses s o Ho HJ) as [H1 H2]. split; assumption.
+Qed.
